@@ -526,6 +526,13 @@ func (nw *netw) nodeEvent(r *rnode, ev *tevent, forceCrash *crashPlan, f func() 
 		hist.Finals++
 		nw.commitOuts(r, from, to, ev)
 		nw.onFinalize(r, outs[finIdx], ev)
+		if h >= int64(nw.cfg.Heights) {
+			// the last height of the run: the node stops here
+			catch(func() { r.eng.Term() })
+			r.down, r.dead = true, true
+			r.lastOuts = r.rec.len()
+			return
+		}
 		// the next height
 		r.traceH = h + 1
 		r.initPend = &tevent{K: "restart", Cut: -1, Outs: touts[finIdx+1:], Pkt: -1}
